@@ -101,6 +101,7 @@ type FuncVerifier struct {
 	quantDepth                                   int
 	bound                                        map[types.Object]Term
 	seenStack                                    []types.Object
+	rmStack                                      []Term
 	riStack                                      []types.Object
 	curCall                                      *ast.CallExpr
 	pick                                         func(ast.Expr) ast.Expr
